@@ -278,6 +278,8 @@ def parser_trace(ctx, aspects):
                 j -= 1
             o = json.loads(lines[j])['o'] if j >= 0 else [False, False]
         aspect = REASON_ASPECT[why][0 if o == [False, False] else 1]
+        if why == 'codemap' and o != [False, False] and any(a.startswith('C05') for a in aspects):
+            aspect = 'C05.trace'        # C05 speaks about every successful parse, whatever the options
         counts[aspect] = counts.get(aspect, 0) + 1
         if any(aspect.startswith(a) for a in aspects):
             start = l - 1
@@ -361,7 +363,7 @@ def c02(ctx):
 
 
 def c05(ctx):
-    files = parser_trees(ctx, ['struct', 'tokens', 'nest', 'str', 'numobj'])
+    files = parser_trees(ctx, ['struct', 'tokens', 'nest', 'str', 'numobj'] + SURR_TREES)
     ctx.replay(files, ['C05.'])
     parser_trace(ctx, ['C05.'])
 
@@ -382,7 +384,7 @@ def c12(ctx):
 
 def nest_families(ctx):
     depths = '{1000, 100000}' if ctx.quick else '{1000, 100000, 1000000, 2000000}'
-    consts = {'Families': 'AllFamilies', 'Depths': depths}
+    consts = {'Families': 'AllAndLength', 'Depths': depths}
     return ctx.mc(f'nest_{ctx.tier}', 'MC_Nest', consts, {'NMax': 9}, ['Affine', 'Dump'], spec='NSpec', workers=4)
 
 
